@@ -243,7 +243,16 @@ func (vc *VC) execIf(st *State, x *ast.IfStmt) *State {
 		vc.conds = append(vc.conds, condRec{cn, len(vc.trace)})
 	}
 	if vc.oracle != nil && vc.dry == 0 {
-		// path-split mode: follow exactly one branch
+		// path-split mode: follow exactly one branch (a literally constant condition is not a branch)
+		if cn == "true" {
+			return vc.execBlock(st, x.Body.List)
+		}
+		if cn == "false" {
+			if x.Else != nil {
+				return vc.exec(st, x.Else, "")
+			}
+			return st
+		}
 		if vc.oracle.next() {
 			st.pc = vc.newPC(and(st.pc, cn))
 			return vc.execBlock(st, x.Body.List)
